@@ -301,14 +301,18 @@ def canon_path(p, smap):
         if cnd[0] == "if":
             conds.append(("" if cnd[2] else "!") + canon(cnd[1], smap))
         elif cnd[0] == "match":
-            conds.append("%s ~ %s" % (canon(cnd[1], smap), rename(str(cnd[2]), smap)))
+            # binding names in patterns are not compared: `tag @ 1..=5` is `1..=5`, a bare binding is `_`
+            ptxt = re.sub(r"\b[a-z_][A-Za-z0-9_]*\s*@\s*", "", rename(str(cnd[2]), smap))
+            ptxt = re.sub(r"^(!?)[a-z_][a-z0-9_]*$", r"\1_", ptxt)
+            conds.append("%s ~ %s" % (canon(cnd[1], smap), ptxt))
         elif cnd[0] == "guard":
             conds.append("guard " + canon(cnd[1], smap))
         else:
             conds.append(str(cnd[0]))
     # the order of effects: each call with the number of conditions already decided when it runs
     trace = ["%s@%s" % (canon(t, smap), t[4] if len(t) > 4 else "") for t in p.trace if isinstance(t, tuple) and t[0] == "call" and not is_log_call(t)]
-    return "%s [%s] {%s} => %s" % (p.kind, " && ".join(conds), "; ".join(trace), canon(p.ret, smap))
+    kind = "fall" if p.kind == "return" else p.kind         # `return x` at the end and the tail expression `x` are the same exit
+    return "%s [%s] {%s} => %s" % (kind, " && ".join(conds), "; ".join(trace), canon(p.ret, smap))
 
 
 def same_paths(ab, sb, smap):
